@@ -10,7 +10,8 @@
 (*        Connection: close, clok: Content-Length = body length}           *)
 (*       {e:"end", closed, escaped, appcalls, appfail: application calls   *)
 (*        out of which an exception propagated (a body framing error seen  *)
-(*        by wsgi.input), alive, next_ok}                                  *)
+(*        by wsgi.input), alive, next_ok, sent_requests: complete requests  *)
+(*        the client sent (-1: not recorded)}                              *)
 (* The wire is read by the independent strict response reader.             *)
 (***************************************************************************)
 EXTENDS HttpStream, Json, IOUtils, TLCExt
@@ -44,6 +45,7 @@ EndVerdict(e) ==
   ELSE IF ~e.closed THEN "ConnectionLeftOpen"
   ELSE IF e.appcalls > MaxApp THEN "RejectedRequestReachedApplication"
   ELSE IF nerr = 1 /\ e.appcalls - e.appfail > napp THEN "RejectedRequestReachedApplication"
+  ELSE IF e.sent_requests >= 0 /\ napp > e.sent_requests THEN "ReplyWithoutRequest"
   ELSE IF ~e.next_ok THEN "NextConnectionNotServed"
   ELSE "ok"
 
